@@ -42,21 +42,134 @@ var c14LateChecker = []string{"failed-assertion", "unopened-account", "closed-ac
 var c14LateLoad = []string{"syntax", "bad-date", "bad-account", "accrual-inverted", "missing-include", "include-cycle"}
 
 type c14LatePlan struct {
-	Form    string    `json:"form"`
-	Tier    int       `json:"size_tier"` // intended report size of the valid prefix: -1 below 4 KiB, 0 above 4 KiB, 1 above 64 KiB, 2 above 1 MiB, 3 several MiB
-	Days    int       `json:"days"`
-	Accts   int       `json:"accounts"`
-	PerDay  int       `json:"transactions_per_day"`
-	Coms    int       `json:"commodities"`
-	Step    int       `json:"days_between_dates"`
-	Base    int       `json:"first_day"`
-	Val     string    `json:"valuation"`
-	Fail    string    `json:"failure"`
-	At      int       `json:"failing_directive_after_day"` // index of the last valid day before the failing directive
-	Where   string    `json:"failing_directive_in"`        // chrono | root-head | root-tail | own-file | last-file-tail | target-tail
-	NFiles  int       `json:"included_files"`
-	IncHead bool      `json:"includes_before_opens"`
-	Bal     *BalFlags `json:"balance_flags,omitempty"`
+	Form    string       `json:"form"`
+	Tier    int          `json:"size_tier"` // intended report size of the valid prefix: -1 below 4 KiB, 0 above 4 KiB, 1 above 64 KiB, 2 above 1 MiB, 3 several MiB
+	Days    int          `json:"days"`
+	Accts   int          `json:"accounts"`
+	PerDay  int          `json:"transactions_per_day"`
+	Coms    int          `json:"commodities"`
+	Step    int          `json:"days_between_dates"`
+	Base    int          `json:"first_day"`
+	Val     string       `json:"valuation"`
+	Fail    string       `json:"failure"`
+	At      int          `json:"failing_directive_after_day"` // index of the last valid day before the failing directive
+	Where   string       `json:"failing_directive_in"`        // chrono | root-head | root-tail | own-file | last-file-tail | target-tail
+	NFiles  int          `json:"included_files"`
+	IncHead bool         `json:"includes_before_opens"`
+	Bal     *BalFlags    `json:"balance_flags,omitempty"`
+	Wide    *c14LateWide `json:"failing_directive_wide,omitempty"`
+}
+
+// c14LateWide: the failing directive written at full width (an error message that quotes, aligns or pads the
+// offending directive meets what a journal may hold, not the everyday `1 CHF`): a quantity of 9..40 characters
+// (around the printer's column of 10 and far beyond it, with up to 24 fractional digits, negative or not), long and
+// non-ASCII account and commodity names, a long / non-ASCII / empty description, further bookings around the
+// offending one. Drawn from its own generator ("late/wide"), so that the other choices of a case stay what they were.
+type c14LateWide struct {
+	Qty    string   `json:"quantity"`
+	Com    string   `json:"commodity,omitempty"` // "" = the valuation commodity
+	Acct   string   `json:"account"`             // the account that is not open
+	Desc   string   `json:"description"`
+	Before []string `json:"bookings_before,omitempty"` // quantities of further bookings (between open accounts) of the failing transaction
+	After  []string `json:"bookings_after,omitempty"`
+	Debit  bool     `json:"offending_account_is_debit"`
+}
+
+var c14LateSegs = []string{"Bank", "B", "Bänk", "Ключ", "口座", "حساب", "Ǆungla", "Savings2024", "x", "ÅÄÖåäö", "Ελληνικά", "𝔘𝔫𝔦"}
+var c14LateComs = []string{"SAT", "X", "Ünit", "1INCH", "chf", "ДЕНЬГИ", "円", "𝔘", "AVERYLONGCOMMODITYNAMEWITHFORTYCHARACTERS", "A1B2C3D4E5F6G7H8I9J0K1L2M3N4O5P6Q7R8S9T0U1V2W3X4Y5Z6A7B8C9D0E1F2G3H4"}
+var c14LateDescs = []string{"", "late", "ü", "Überweisung — Miete Jänner", "給料 🎉 ボーナス", "e\u0301 combining ̈a", "tab\there", "'single' `back` \\ back\\slash %d %s %!v(x)", "مرتب", "<nul>"}
+
+// c14LateQty draws a decimal of exactly n characters (n >= 1): sign, integer digits, fractional digits.
+func c14LateQty(r *RNG, n int) string {
+	neg := n >= 2 && r.Chance(1, 4)
+	if neg {
+		n--
+	}
+	frac := 0
+	if n >= 3 && r.Chance(2, 3) {
+		frac = r.Range(1, min(n-2, 24))
+	}
+	digits := func(k int, first bool) string {
+		b := make([]byte, k)
+		for j := range b {
+			b[j] = byte('0' + r.Intn(10))
+			if j == 0 && first && k > 1 {
+				b[j] = byte('1' + r.Intn(9))
+			}
+		}
+		return string(b)
+	}
+	q := ""
+	if frac > 0 {
+		q = digits(n-frac-1, true) + "." + digits(frac, false)
+	} else {
+		q = digits(n, true)
+	}
+	if strings.Trim(q, "0.") == "" {
+		q = q[:len(q)-1] + "7" // (a booking of zero is legal, but keep the position non-trivial)
+	}
+	if neg {
+		q = "-" + q
+	}
+	return q
+}
+
+func c14LateWideOf(c *Ctx, i int) *c14LateWide {
+	r := c.Rng("late/wide", i)
+	if r.Chance(1, 5) {
+		return nil // the everyday directive of before
+	}
+	lens := []int{9, 10, 11, 11, 12, 13, 16, 18, 21, 27, 33, 40}
+	w := &c14LateWide{Qty: c14LateQty(r, Pick(r, lens)), Debit: r.Chance(3, 4)}
+	if r.Chance(1, 2) {
+		w.Com = Pick(r, c14LateComs)
+	}
+	// the account: 1..12 segments below a type
+	w.Acct = Pick(r, []string{"Assets", "Assets", "Expenses", "Liabilities", "Income", "Equity"})
+	if r.Chance(1, 4) {
+		w.Acct += ":NeverOpened"
+	} else {
+		for k, n := 0, Pick(r, []int{1, 1, 2, 3, 5, 12}); k < n; k++ {
+			w.Acct += ":" + Pick(r, c14LateSegs)
+		}
+		if r.Chance(1, 4) {
+			w.Acct += ":" + strings.Repeat("Long", r.Range(3, 40))
+		}
+		w.Acct += ":Z9" // (never one of the accounts the journal opens)
+	}
+	w.Desc = Pick(r, c14LateDescs)
+	if r.Chance(1, 4) {
+		w.Desc = strings.Repeat(w.Desc+" lorem ipsum ", r.Range(2, 60))
+	}
+	if r.Chance(1, 3) {
+		for k, n := 0, r.Range(1, 3); k < n; k++ {
+			w.Before = append(w.Before, c14LateQty(r, Pick(r, lens)))
+		}
+	}
+	if r.Chance(1, 3) {
+		for k, n := 0, r.Range(1, 3); k < n; k++ {
+			w.After = append(w.After, c14LateQty(r, Pick(r, lens)))
+		}
+	}
+	return w
+}
+
+// tx writes a transaction dated d whose offending booking moves qty between Income:Salary and acct.
+func (w *c14LateWide) tx(p *c14LatePlan, d int, acct, com string) string {
+	var b strings.Builder
+	fmt.Fprintf(&b, "%s \"%s\"\n", fmtDate(d), w.Desc)
+	for _, q := range w.Before {
+		fmt.Fprintf(&b, "Income:Salary %s %s %s\n", p.acct(0), q, p.Val)
+	}
+	if w.Debit {
+		fmt.Fprintf(&b, "Income:Salary %s %s %s\n", acct, w.Qty, com)
+	} else {
+		fmt.Fprintf(&b, "%s Income:Salary %s %s\n", acct, w.Qty, com)
+	}
+	for _, q := range w.After {
+		fmt.Fprintf(&b, "Equity:Opening %s %s %s\n", p.acct(0), q, p.Val)
+	}
+	return b.String()
 }
 
 type c14LateCase struct {
@@ -194,6 +307,9 @@ func c14LatePlanOf(c *Ctx, i int) (c14LatePlan, *RNG) {
 	if p.Fail == "target-syntax" || p.Fail == "none" {
 		p.At = p.Days - 1
 	}
+	if dated {
+		p.Wide = c14LateWideOf(c, i)
+	}
 	return p, r
 }
 
@@ -205,6 +321,47 @@ func (p *c14LatePlan) acct(k int) string { return fmt.Sprintf("Assets:Bank:Acct%
 // the journal are at least three days apart).
 func (p *c14LatePlan) failText() string {
 	fd := p.date(p.At) + 1
+	if w := p.Wide; w != nil {
+		com := p.Val
+		if w.Com != "" {
+			com = w.Com
+		}
+		switch p.Fail {
+		case "failed-assertion":
+			return fmt.Sprintf("%s balance %s %s %s\n", fmtDate(fd), p.acct(0), w.Qty, com)
+		case "unopened-account":
+			return w.tx(p, fd, w.Acct, com)
+		case "closed-account":
+			// (an account of its own, opened and closed again, or the spare account of every journal)
+			if strings.HasSuffix(w.Acct, ":Z9") {
+				return fmt.Sprintf("%s open %s\n\n%s close %s\n\n%s", fmtDate(fd), w.Acct, fmtDate(fd+1), w.Acct, w.tx(p, fd+2, w.Acct, com))
+			}
+			return fmt.Sprintf("%s close Assets:Spare\n\n%s", fmtDate(fd), w.tx(p, fd+1, "Assets:Spare", com))
+		case "second-open":
+			if strings.HasSuffix(w.Acct, ":Z9") {
+				return fmt.Sprintf("%s open %s\n\n%s open %s\n", fmtDate(fd), w.Acct, fmtDate(fd+1), w.Acct)
+			}
+		case "close-with-position":
+			if strings.HasSuffix(w.Acct, ":Z9") {
+				// the position: the offending booking on the account, opened for it (the checker keeps the positions
+				// of assets and liabilities)
+				a := w.Acct
+				if !strings.HasPrefix(a, "Assets:") && !strings.HasPrefix(a, "Liabilities:") {
+					a = "Liabilities" + a[strings.Index(a, ":"):]
+				}
+				return fmt.Sprintf("%s open %s\n\n%s\n%s close %s\n", fmtDate(fd), a, w.tx(p, fd, a, p.Val), fmtDate(fd+1), a)
+			}
+		case "assertion-unopened":
+			return fmt.Sprintf("%s balance %s %s %s\n", fmtDate(fd), w.Acct, w.Qty, com)
+		case "close-unopened":
+			return fmt.Sprintf("%s close %s\n", fmtDate(fd), w.Acct)
+		case "missing-price":
+			if w.Com == "" || w.Com == p.Val {
+				com = "NOPRICE"
+			}
+			return w.tx(p, fd, p.acct(0), com)
+		}
+	}
 	switch p.Fail {
 	case "failed-assertion":
 		return fmt.Sprintf("%s balance %s -987654321.5 %s\n", fmtDate(fd), p.acct(0), p.Val)
@@ -477,6 +634,20 @@ func c14LateExec(bin, dir string, tc *c14Case) int {
 	return so.n
 }
 
+// c14LateCrash: a crash trace on standard error, or the mark fmt leaves where a panic inside an Error / String method
+// was swallowed while the diagnostic (or the report) was formatted: `%!v(PANIC=Error method: …)`.
+func c14LateCrash(tc *c14Case) bool {
+	if c14Crash(tc.stderr) {
+		return true
+	}
+	for _, s := range []string{tc.stderr, tc.stdout} {
+		if strings.Contains(s, "(PANIC=") && strings.Contains(s, "%!") {
+			return true
+		}
+	}
+	return false
+}
+
 func c14LateSize(n int) string {
 	switch {
 	case n == 0:
@@ -591,7 +762,7 @@ func runC14Late(c *Ctx) {
 						c.Sample(map[string]any{"stream": "late", "plan": p, "argv": tc.Argv, "ending": tc.ending, "prefix_report_bytes": lc.outLen[1], "stderr": clip(tc.stderr)[:min(len(tc.stderr), 300)]})
 					}
 				}
-				so, se, cr, ef := b2s(lc.outLen[q] == 0), b2s(strings.TrimSpace(tc.stderr) == ""), b2s(c14Crash(tc.stderr)), b2s(tc.ExpectFail)
+				so, se, cr, ef := b2s(lc.outLen[q] == 0), b2s(strings.TrimSpace(tc.stderr) == ""), b2s(c14LateCrash(tc)), b2s(tc.ExpectFail)
 				mon := func() {
 					bt.Add(func(ans string) {
 						if ans == "ok" {
